@@ -348,7 +348,7 @@ def run_tlc(
     """Run TLC on spec_dir/module.tla with spec_dir/cfg; all scratch output goes to a temp dir."""
     meta = tempfile.mkdtemp(prefix="eko-verif-tlc-")
     try:
-        cmd = ["java", "-XX:+UseParallelGC", "-Xmx8g"]
+        cmd = ["java", "-XX:+UseParallelGC", "-Xmx8g", f"-Djava.io.tmpdir={meta}"]
         if depth_first:
             cmd.append("-Dtlc2.tool.queue.IStateQueue=StateDeque")
         cmd += ["-cp", TLA_CP, "tlc2.TLC", "-workers", str(workers), "-metadir", meta, "-noGenerateSpecTE"]
